@@ -168,7 +168,7 @@ def dihybrid_case(cid, rng, s, genic, cov=False):
             if genic:
                 obj = cls.from_algmod(gm, pg, 10, mem if mem else 1000)
             else:
-                obj = cls.from_algmod(gm, pg, 1, 10, s, HaldaneMapFunction(), mem)
+                obj = cls.from_algmod(gm, pg, 1, 10, math.inf if s == -1 else s, HaldaneMapFunction(), mem)
             M = np.asarray(obj.mat, dtype=float)
             ok = True; ents = []
             for i in range(n):
@@ -260,7 +260,7 @@ def run(ctx):
                 "of the real variance / covariance matrices (all parent tuples incl. repeated parents, chunk sizes 1/2/None, selfing "
                 "depth 0..3 and infinite) are validated by TLC against the enumeration; distinct by full input")
     ctx.assume("inbred parents, Haldane map positions chosen so that every pairwise recombination fraction is a multiple of 1/8",
-               "infinite selfing (two-way): the closed limit 2r/(1+2r) of the recurrence TLC verified for finite depths",
+               "infinite selfing: TLC's limit stage (recombinant share 2r/(1+2r) of completely inbred lines, checked by TLC to be invariant under one more enumerated selfing generation)",
                "observed entries converted with Fraction.limit_denominator(200000), residual 1e-9")
     tabs = tables(ctx, thorough)
     have = {(t["scheme"], t["s"]) for t in tabs}
@@ -275,18 +275,19 @@ def run(ctx):
             for s in (0, 1, 2, 3, -1):
                 plan.append(("2w", s, False, False)); plan.append(("2w", s, False, False))
             plan.append(("2w", 0, True, False)); plan.append(("2w", 0, True, False))
-            for s in (0, 1, 2):
+            for s in (0, 1, 2, -1):
                 plan.append(("3w", s, False, False)); plan.append(("3w", s, False, False))
-            for s in ((0, 1, 2) if thorough else (0, 1, 2)):
+            for s in (0, 1, 2, -1):
                 plan.append(("4w", s, False, False))
-            for s in (0, 1, 2):
+            for s in (0, 1, 2, -1):
                 plan.append(("2w", s, False, True)); plan.append(("2w", s, False, True))
+            plan.append(("3w", -1, False, True)); plan.append(("4w", -1, False, True))
             plan.append(("3w", 0, True, False)); plan.append(("4w", 0, True, False))
             plan.append(("3w", 1, False, True)); plan.append(("4w", 0, False, True))
             plan.append(("3w", 0, False, True)); plan.append(("4w", 1, False, True))   # the genic covariance classes are abstract (not instantiable)
         allc = []
         for scheme, s, genic, cov in plan:
-            if s >= 0 and (scheme, s) not in have:
+            if (scheme, s) not in have:
                 continue
             try:
                 allc.append(one_case(len(allc) + 1, rng, scheme, s, genic, cov, thorough))
@@ -295,7 +296,8 @@ def run(ctx):
         for s in (0, 1, 2):
             for _ in range(3 if thorough else 1):
                 allc.append(uc_case(len(allc) + 1, rng, s))
-        for s, genic, cov in ((0, False, False), (1, False, False), (0, True, False), (1, False, False), (0, False, True), (1, False, True)):
+        for s, genic, cov in ((0, False, False), (1, False, False), (0, True, False), (1, False, False), (0, False, True), (1, False, True),
+                              (-1, False, False), (-1, False, True)):
             if ("4w", s) in have:
                 for _ in range(2 if thorough else 1):
                     allc.append(dihybrid_case(len(allc) + 1, rng, s, genic, cov))
